@@ -65,6 +65,10 @@ type Worker struct {
 	viol    *Violation
 	runHash uint64
 
+	evlog   *os.File // determinism self-test: one line per execution
+	steplog *os.File // debugging aid: every step line
+	nsteps0 int64
+
 	// first race-class violation seen in any execution (race reports are not perfectly repeatable:
 	// the detector keeps a bounded access history per memory word)
 	anyRace *Violation
@@ -81,6 +85,12 @@ func NewWorker(t *testing.T, property, test string) *Worker {
 	}
 	if s := os.Getenv("VERIF_WORKER_SEED"); s != "" {
 		w.Seed, _ = strconv.ParseUint(s, 10, 64)
+	}
+	if p := os.Getenv("VERIF_STEPLOG"); p != "" {
+		w.steplog, _ = os.Create(p)
+	}
+	if p := os.Getenv("VERIF_EVENTLOG"); p != "" {
+		w.evlog, _ = os.Create(p)
 	}
 	if p := os.Getenv("VERIF_KNOWN"); p != "" {
 		b, err := os.ReadFile(p)
@@ -102,8 +112,21 @@ func NewWorker(t *testing.T, property, test string) *Worker {
 	return w
 }
 
+func (w *Worker) flushEvent() {
+	if w.evlog == nil || w.Runs == 0 {
+		return
+	}
+	sig := "-"
+	if w.viol != nil {
+		sig = w.viol.Signature
+	}
+	fmt.Fprintf(w.evlog, "%d %016x %d %s\n", w.Runs, w.runHash, w.StepsTot-w.nsteps0, sig)
+}
+
 // Begin starts one execution (one rapid check).
 func (w *Worker) Begin(config string) {
+	w.flushEvent()
+	w.nsteps0 = w.StepsTot
 	w.Runs++
 	w.steps = w.steps[:0]
 	w.viol = nil
@@ -115,6 +138,9 @@ func (w *Worker) Begin(config string) {
 func (w *Worker) Step(format string, a ...any) {
 	w.StepsTot++
 	line := fmt.Sprintf(format, a...)
+	if w.steplog != nil {
+		fmt.Fprintf(w.steplog, "%d| %s\n", w.Runs, line)
+	}
 	w.MixS(line)
 	w.steps = append(w.steps, line)
 }
@@ -228,6 +254,10 @@ type result struct {
 
 // Finish must be deferred by the test function; it writes the worker result file.
 func (w *Worker) Finish() {
+	w.flushEvent()
+	if w.evlog != nil {
+		w.evlog.Close()
+	}
 	res := result{
 		Status: "ok", Property: w.Property, Test: w.Test, Seed: w.Seed,
 		WallS: time.Since(w.start).Seconds(), Runs: w.Runs, Steps: w.StepsTot,
